@@ -4,6 +4,7 @@ from fractions import Fraction
 import numpy as np
 
 from symx.shim import SymNP
+from symx import core
 
 META = dict(
     functions=["tools.time_integration.integration_stencil", "integrated_lagrange_base_polynomial_coef",
@@ -208,6 +209,25 @@ def case_integrate_cubic_symdt(ctx, N, order, n):
         ctx.check(ctx.eq(out[ii] - out[ii - 1], IP(t[ii]) - IP(t[ii - 1])), "D-INT.cubic-symdt", info=dict(ii=ii))
 
 
+def case_integrate_int_time(ctx, N, order, n):
+    """time axis of INTEGER dtype (epoch seconds as int64) with a real-valued signal and a non-integer start value:
+    the result is a real series (starts at the start value, steps are the trapezoid / stencil values), not one cast
+    to the dtype of the time axis"""
+    ti = _ti(ctx)
+    t = np.arange(N, dtype="int64") * 2 + 5
+    a = ctx.reals("a", N)
+    s0 = ctx.frac(1, 2) if ctx.mode == "sym" else 0.5
+    try:
+        out = ctx.noraise("D-INT.dtype", ti.integrate, t, a, order, n, s0)
+    except core.Unsupported as ex:
+        # the code tried to store a real value in an integer array (int() of a symbol)
+        ctx.check(False, "D-INT.dtype", info=f"result array cannot hold real values: {ex}")
+        return
+    ctx.reach("D-INT.dtype")
+    ctx.check(ctx.eq(out[0], ctx.frac(1, 2)), "D-INT.dtype", info="starts at the (non-integer) start value")
+    ctx.check(ctx.eq(out[1] - out[0], (a[0] + a[1]) * 2 / 2), "D-INT.dtype", info="first step is the trapezoid value")
+
+
 def cases(tier):
     cs = []
     for order in range(1, 9):
@@ -225,6 +245,7 @@ def cases(tier):
                            kwargs=dict(N=N, order=o, n=n), opts=dict(weight=N)))
             cs.append(dict(name=f"int_steps_N{N}_o{o}_n{n}", fn="props.c20:case_integrate_steps",
                            kwargs=dict(N=N, order=o, n=n), opts=dict(weight=N)))
+    cs.append(dict(name="int_time_N6_o4_n1", fn="props.c20:case_integrate_int_time", kwargs=dict(N=6, order=4, n=1)))
     if tier == "quick":
         # long enough that the first interval of the record lies outside every neighbourhood the jitter claim allows as
         # the 1% reference (a tolerance frozen at the first step is then visible)
